@@ -37,7 +37,11 @@ def random_code(rng, used):
     return 'Z%d' % len(used)
 
 
-def make_renaming(rng, spec):
+PREFIX_CHARS = ['MEAT', 'ENERGY', 'DEMAND', 'Durables', 'Em_1', 'D', 'E', 'M', 'DEM', 'SUP', 'SUPPLY', 'LAGGED', 'UPS', 'PUSS',
+                'MUD', 'ED', 'DEED']
+
+
+def make_renaming(rng, spec, force_prefix_chars=False):
     codes, ckey_map = {}, {}
     used_c = set(['EXT'])
     used = set(['MON', 'DEP'] + list(M.DEFAULT_CODES.values()))     # every new code is distinct model-wide
@@ -57,6 +61,13 @@ def make_renaming(rng, spec):
                             used.add(cm[role])
                     else:
                         cm[role] = random_code(rng, used)
+            if force_prefix_chars:
+                # market codes made only of the characters of the prefixes DEM_/SUP_/LAG_ (a code is never a prefix)
+                for role in ('GOOD', 'LAB'):
+                    cand = [x for x in PREFIX_CHARS if x not in used]
+                    if cand and rng.random() < 0.8:
+                        cm[role] = rng.choice(cand)
+                        used.add(cm[role])
             codes[c['key']] = cm
     return codes, ckey_map
 
@@ -141,7 +152,7 @@ class C18(object):
         m = idx % 6
         if m in (0, 1, 2):
             spec = M.gen_spec(rng, n_zones=rng.choice([1, 1, 2]), maxtime=rng.randint(3, 5))
-            codes, ckey_map = make_renaming(rng, spec)
+            codes, ckey_map = make_renaming(rng, spec, force_prefix_chars=(m == 0))
             return {'kind': 'rename', 'spec': spec, 'codes': codes, 'ckey_map': ckey_map}
         if m in (3, 4):
             spec = M.gen_spec(rng, n_zones=rng.choice([2, 2, 3]), ext=False, maxtime=rng.randint(3, 4), cross=False)
